@@ -21,16 +21,20 @@ ASSUMPTIONS = ['input paths are absolute and identical across seeds; only the en
                'order dependence on string-keyed tables or on input order is deterministic and is not this property']
 RD = 'tests/data/test-read-dwarf/'
 ABIDW_INPUTS = {'pr18828': RD + 'test11-pr18828.so', 'pr18844': RD + 'test12-pr18844.so', 'pr18818-clang': RD + 'test9-pr18818-clang.so',
-                'boost_iostreams': RD + 'PR22015-libboost_iostreams.so', 'libaaudio': RD + 'test-libaaudio.so', 'pr18894': RD + 'test13-pr18894.so'}
+                'boost_iostreams': RD + 'PR22015-libboost_iostreams.so', 'libaaudio': RD + 'test-libaaudio.so', 'pr18894': RD + 'test13-pr18894.so',
+                # pool libraries built to make comparators tie: same-named different types in two translation units, anonymous types, one source compiled twice
+                'ties': '@ties_v1', 'twice': '@twice_v0', 'cxx-pool': '@cxx_v2'}
 ABIDW_OPTS = {'default': [], 'no-locs': ['--no-show-locs'], 'annotate': ['--annotate'], 'all-types': ['--load-all-types'], 'hash-ids': ['--type-id-style', 'hash'],
               'no-corpus-path': ['--no-corpus-path', '--no-comp-dir-path'], 'short-locs': ['--short-locs']}
 ABIDIFF_PAIRS = {'rvalueref': ('tests/data/test-diff-filter/test30-pr18904-rvalueref-liba.so', 'tests/data/test-diff-filter/test30-pr18904-rvalueref-libb.so'),
                  'lttng': ('tests/data/test-diff-dwarf/PR25058-liblttng-ctl2.10.so', 'tests/data/test-diff-dwarf/PR25058-liblttng-ctl.so'),
                  'struct-change': ('tests/data/test-diff-filter/libtest32-struct-change-v0.so', 'tests/data/test-diff-filter/libtest32-struct-change-v1.so'),
                  'ppc64-aliases': ('tests/data/test-diff-dwarf/libtest36-ppc64-aliases-v0.so', 'tests/data/test-diff-dwarf/libtest36-ppc64-aliases-v1.so'),
-                 'pr18818': (RD + 'test9-pr18818-clang.so', RD + 'test10-pr18818-gcc.so')}
+                 'pr18818': (RD + 'test9-pr18818-clang.so', RD + 'test10-pr18818-gcc.so'),
+                 'ties': ('@ties_v0', '@ties_v1'), 'ties-rev': ('@ties_v1', '@ties_v0'), 'twice-ties': ('@twice_v0', '@ties_v0')}
 ABIDIFF_OPTS = {'default': [], 'redundant': ['--redundant'], 'leaf': ['--leaf-changes-only'], 'harmless': ['--harmless'], 'impacted': ['--impacted-interfaces', '--leaf-changes-only'],
-                'stat': ['--stat']}
+                'stat': ['--stat'], 'unreachable': ['--non-reachable-types'], 'unreachable-leaf': ['--non-reachable-types', '--leaf-changes-only'],
+                'unreachable-all': ['--non-reachable-types', '--harmless', '--redundant']}
 
 
 def item_list(tier):
@@ -39,7 +43,10 @@ def item_list(tier):
         for n, o in (('pr18828', 'default'), ('pr18844', 'default'), ('pr18818-clang', 'annotate'), ('boost_iostreams', 'all-types'), ('libaaudio', 'hash-ids'),
                      ('pr18828', 'no-locs'), ('pr18894', 'default')):
             items.append(('abidw', n, o))
-        for n, o in (('rvalueref', 'default'), ('lttng', 'default'), ('struct-change', 'redundant'), ('ppc64-aliases', 'harmless'), ('pr18818', 'leaf'), ('rvalueref', 'impacted')):
+        for n, o in (('ties', 'default'), ('ties', 'all-types'), ('twice', 'all-types'), ('ties', 'annotate')):
+            items.append(('abidw', n, o))
+        for n, o in (('rvalueref', 'default'), ('lttng', 'default'), ('struct-change', 'redundant'), ('ppc64-aliases', 'harmless'), ('pr18818', 'leaf'), ('rvalueref', 'impacted'),
+                     ('ties', 'unreachable'), ('ties-rev', 'unreachable-leaf'), ('ties', 'unreachable-all'), ('twice-ties', 'unreachable')):
             items.append(('abidiff', n, o))
         for i in range(6):
             items.append(('abipkgdiff', 'pk%02d' % i, 'default'))
@@ -63,12 +70,12 @@ def make_items(ctx, only=None):
             continue
         it = {'name': name, 'tool': tool}
         if tool == 'abidw':
-            p = os.path.join(C.REPO, ABIDW_INPUTS[n])
+            p = ctx.libs[ABIDW_INPUTS[n][1:]] if ABIDW_INPUTS[n].startswith('@') else os.path.join(C.REPO, ABIDW_INPUTS[n])
             if not os.path.exists(p) or os.path.getsize(p) == 0:
                 continue
             it['argv'] = ['abidw'] + ABIDW_OPTS[o] + [p]
         elif tool == 'abidiff':
-            a, b = (os.path.join(C.REPO, x) for x in ABIDIFF_PAIRS[n])
+            a, b = (ctx.libs[x[1:]] if x.startswith('@') else os.path.join(C.REPO, x) for x in ABIDIFF_PAIRS[n])
             if not (os.path.exists(a) and os.path.exists(b) and os.path.getsize(a) and os.path.getsize(b)):
                 continue
             it['argv'] = ['abidiff', '--no-default-suppression'] + ABIDIFF_OPTS[o] + [a, b]
@@ -146,8 +153,11 @@ def make_plans(ctx, tier, items):
     plans = []
     K_ = 5 if tier == 'quick' else 15
     i = 0
+    known_inputs = set(k.split(':', 1)[1] for k in C.known_open(PROP))
     for name in sorted(items):
-        for k in range(1, K_ + 1):
+        # an input with a listed open finding gets more layouts, so that the finding shows (and is reported as KNOWN-FINDING) in every run
+        n = max(K_, 12) if '/'.join(name.split('/')[:2]) in known_inputs else K_
+        for k in range(1, n + 1):
             plans.append({'item': name, 'params': {'k': k, 'layout_seed': C.mix_seed(ctx.seed, 14, 1, 1000 * i + k)}})
         i += 1
     return plans
@@ -159,10 +169,10 @@ def execute(ctx, it, params):
     verdict, key = None, None
     if o.klass != ro.klass:
         verdict = ('status-differs', 'outcome %s under this layout, %s under the reference layout' % (o.status_key(), ro.status_key()))
-        key = 'status-differs:' + it['tool']
+        key = 'status-differs:' + '/'.join(it['name'].split('/')[:2])
     elif out != rout:
         verdict = ('output-differs', '%s: output differs between two layouts (%d vs %d bytes): %s' % (it['name'], len(out), len(rout), first_diff(out, rout)))
-        key = 'output-differs:' + it['tool']
+        key = 'output-differs:' + '/'.join(it['name'].split('/')[:2])      # tool/input: a finding on one input must not hide another
     sm = o.res.get('simm', {})
     return F.Result(verdict, key, ['heap-layout', 'environment'] + (['schedule'] if it['tool'] == 'abipkgdiff' else []),
                     [(it['name'], sm.get('addr_hash'))], digest=(o.exit, o.signal, C.sha(out), sm.get('addr_hash')),
